@@ -400,7 +400,19 @@ class ChainPredicate(EntryPredicate):
         if c is not None and "int" in c:
             return ("const", c["int"])
         roles = set()
+        ov = state.get("override", {}).get(g["path"])
         for o in mir.provenance(g, du, op, transparent_extra=VAL_TRANSPARENT):
+            if ov is not None and o.kind == "arg":
+                # a closure nested in the predicate (`.is_some_and(|held| ..)`): its parameter is the looked-up amount, its
+                # captures are what the predicate handed it
+                if o.local == 2:
+                    roles.add(ov["param"])
+                elif o.local == 1:
+                    idx = [int(p[1:]) for p in o.proj if p[:1] == "." and p[1:].isdigit()]
+                    roles.add(ov["caps"].get(idx[0]) if idx else None)
+                else:
+                    roles.add(None)
+                continue
             if o.kind == "arg" and o.local == 2:
                 nums = [p for p in o.proj if p[:1] == "." and p[1:].isdigit()]
                 if nums and nums[-1] == ".1":
@@ -516,6 +528,31 @@ class ChainPredicate(EntryPredicate):
                             ret = v
                     bb = t["t"]
                     continue
+                if name in ("is_some_and", "is_none_or") and c.startswith("std::option::Option") and state.get("get_t") is not None and len(t["args"]) == 2:
+                    # `<other>.get(key).is_some_and(|held| ..)`: absent -> false (true for is_none_or); present -> the nested
+                    # closure's verdict, its parameter being the looked-up amount
+                    src = mir.provenance(g, du, t["args"][0], transparent_extra=VAL_TRANSPARENT)
+                    if not src or not all(o.kind == "call" and o.term is state["get_t"] for o in src):
+                        raise Shape("%s on something that is not the lookup's result" % name)
+                    if not scenario["present"]:
+                        v = (name == "is_none_or")
+                    else:
+                        inner = None
+                        for o in mir.provenance(g, du, t["args"][1]):
+                            if o.kind == "agg" and o.rv.get("closure") in self.F.fns:
+                                inner = (self.F.fns[o.rv["closure"]], o.rv.get("ops") or [])
+                        if inner is None:
+                            raise Shape("the predicate of %s is not a closure literal" % name)
+                        g2, ops2 = inner
+                        caps2 = {i: self._crole(g, du, op2, state) for i, op2 in enumerate(ops2)}
+                        state.setdefault("override", {})[g2["path"]] = {"param": ("get",), "caps": caps2}
+                        v = self._eval_closure(g2, {}, scenario, state)
+                    if not t["dest"]["p"]:
+                        bools[t["dest"]["l"]] = v
+                        if t["dest"]["l"] == 0:
+                            ret = v
+                    bb = t["t"]
+                    continue
                 if c in VAL_TRANSPARENT or name in ("deref", "clone", "cloned", "copied"):
                     bb = t["t"]
                     continue
@@ -540,7 +577,14 @@ class ChainPredicate(EntryPredicate):
 
     def literals(self):
         out = set()
+        bodies = []
         for kind, (g, caps) in self.stages:
+            bodies.append(g)
+            # closures nested in a predicate
+            for _, _, s in mir.stmts(g):
+                if s["rv"]["k"] == "agg" and s["rv"].get("closure") in self.F.fns:
+                    bodies.append(self.F.fns[s["rv"]["closure"]])
+        for g in bodies:
             for _, _, s in mir.stmts(g):
                 rv = s["rv"]
                 if rv["k"] == "binop" and rv["op"] in ("Eq", "Ne", "Lt", "Le", "Gt", "Ge"):
@@ -564,6 +608,17 @@ def predicate(F, fn):
         try:
             return ChainPredicate(F, fn)
         except Shape as e2:
+            # an adaptor that lives in a small helper of the crate (`fn material(&self) -> impl Iterator { self.iter().filter(..) }`)
+            from .common import with_helpers
+            try:
+                fi = with_helpers(F, fn["path"], depth=2, limit=40)
+            except Exception:
+                fi = None
+            if fi is not None and fi.get("inlined"):
+                try:
+                    return ChainPredicate(F, fi)
+                except Shape as e3:
+                    raise Shape("%s; %s; with helpers inlined: %s" % (e1, e2, e3))
             raise Shape("%s; %s" % (e1, e2))
 
 
